@@ -243,8 +243,8 @@ PROPS["C04"] = {
                     "derived Ord/Hash of `enum Sign` modelled by its discriminant (Minus=0, NoSign=1, Plus=2)",
                     "Vec capacity / buffer reuse (clone_from, mem::replace, shrink_to_fit) is not modelled; it is exercised by the history stream only"],
         "assumptions": COMMON_ASSUME,
-        "level_text": 'Theorems (all canonical values of any length / sign): biguint_canon_unique, bigint_repr_unique and biguint/bigint_export_congr (a canonical representation, hence every export, is a function of the integer); biguint_eq_iff_val, bigint_eq_iff_val (== exactly for equal integers); biguint_cmp_spec, bigint_cmp_spec, *_le_spec (cmp = numerical order); biguint_hash_iff, bigint_hash_iff (hash input equal exactly for equal integers); nosign_iff_zero; constructor theorems biguint_new/from_slice/assign_from_slice_spec, biguint_from_vec_spec, bigint_from_biguint/new/from_slice/assign_from_slice_spec (ARBITRARY u32 words incl. redundant high zeros and ANY Sign request, also inconsistent, give the canonical value); and the history theorem reachable_eq / reachable_canon / reachable_val: after ANY finite sequence of the in-place operations of NB.Core.uOps/iOps (+=, -=, set_zero, set_one, clone_from, assign_from_slice for both types, negation for BigInt) started from canonical registers, every register is exactly the canonical representation of the value computed by a spec machine over Nat/Int; history_*_indistinguishable combine both. The model is tied to the source by a 3-way differential run (release+debug) over comparison pairs, constructor inputs and 1500 (thorough 10k) register histories whose raw digit vectors, signs, pairwise ==/cmp/hash and exports are compared.',
-        "level_note": "Trusted: Lean kernel + {propext, Classical.choice, Quot.sound}; std's hasher is not modelled (only its input); Vec capacity / buffer reuse not modelled (exercised by the history stream only); the history theorem covers the operations listed in uOps/iOps today (*= /= %= <<= >>= &= |= ^= set_bit are one OpImpl + one soundness lemma each, not yet added); their Canon preservation is proved in C02/C03/C07.",
+        "level_text": "Theorems (all canonical values of any length / sign): biguint_canon_unique, bigint_repr_unique and biguint/bigint_export_congr (a canonical representation, hence every export, is a function of the integer); biguint_eq_iff_val, bigint_eq_iff_val (== exactly for equal integers); biguint_cmp_spec, bigint_cmp_spec, *_le_spec (cmp = numerical order); biguint_hash_iff, bigint_hash_iff (hash input equal exactly for equal integers); nosign_iff_zero; constructor theorems biguint_new/from_slice/assign_from_slice_spec, biguint_from_vec_spec, bigint_from_biguint/new/from_slice/assign_from_slice_spec (ARBITRARY u32 words incl. redundant high zeros and ANY Sign request, also inconsistent, give the canonical value); and the history theorem reachable_eq / reachable_canon / reachable_val: after ANY finite sequence of the in-place operations of NB.Core.uOps/iOps (for both types += -= *= (register operand and u32/u64/u128, BigInt u128/i128, scalar forms) /= %= (zero divisor: documented failure, not executed) <<= >>= &= |= ^= set_bit set_zero set_one clone_from assign_from_slice, and negation for BigInt) started from canonical registers, every register is exactly the canonical representation of the value computed by a spec machine over Nat/Int; history_*_indistinguishable combine both. The model is tied to the source by a 3-way differential run (release+debug) over comparison pairs, constructor inputs and 1500 (thorough 10k) register histories whose raw digit vectors, signs, pairwise ==/cmp/hash and exports are compared.",
+        "level_note": "Trusted: Lean kernel + {propext, Classical.choice, Quot.sound}; std's hasher is not modelled (only its input); Vec capacity / buffer reuse not modelled (exercised by the history stream only); the history theorem ranges over the operation list uOps/iOps of NB.Model.Core (all in-place operations named in the property statement); the soundness lemmas of * / % << >> & | ^ set_bit rest on the operation theorems of C02/C03/C07; shift amounts are usize immediates and `>>=` on BigInt treats a (physically impossible) operand of 2^58 or more digits as a capacity failure.",
     }
 
 PROPS["C19"] = {
